@@ -119,6 +119,21 @@ PROPS = {
                 "Pinocchio tick-array loaders (exhaustive); the slot table of the 15 fund-moving accounts structs and 6 Pinocchio prologues is regenerated and checked by `decide`",
         "trusted": ["as C04; the sparse-swap builder's account checks (PDA, ownership) are part of C10's family; token-program-side checks (owner accounts) are Solana's"],
     },
+    "C16": {
+        "lean_modules": ["WP.Props.C16"],
+        "lean_support": ["WP.Props.C03"],
+        "families": [("tfee", 60000, 3000000), ("hist", 12000, 300000)],
+        "history": True,
+        "rule": "tfee: calculate_transfer_fee_included / excluded_amount of BOTH implementations (Anchor on an InterfaceAccount<Mint>, Pinocchio on a memory-mapped account through its own TLV parser and Clock) on a real "
+                "Token-2022 mint account with a TransferFeeConfig (rates 0..=10000 bp incl. 0 / 1 / 9999 / 10000, maximum fees 0 / 1 / around the cap / u64::MAX, the fee in force being the older or the newer one), "
+                "amounts boundary-biased incl. around maxFee x 10000 / bps; oracle: exact arithmetic (sum, fee-reduced value, minimality, failure only on u64 overflow); hist: op xswap runs the REAL swap and swap_v2 "
+                "instructions through the program's entrypoint on accounts built from the current pool state, with the REAL spl-token / Token-2022 processors executing the transfers (plain SPL mints, Token-2022 "
+                "mints with and without transfer fee on either side, exact-in / exact-out, both directions, price limits, thresholds off / exactly binding / one unit too tight); compared: trader and vault balance "
+                "deltas, withheld fees, pool account vs the manager-level swap, Traded event vs amounts moved, error names; non-trivial = a successful instruction with a transfer fee",
+        "trusted": ["native executor (harness/src/svm.rs): BPF-loader input format, Clock/Rent stubs, CPI dispatch with signer-privilege checks, host arms of pinocchio / solana-invoke / solana-msg / anchor-lang routed to it by the vendored copies (marked HOST HOOK)",
+                    "liquidity instructions (increase / decrease / reposition v2) and the two-hop handlers are not yet executed; their fee wrappers are the same two functions (tfee)",
+                    "transfer hooks and confidential transfers are out of scope"],
+    },
     "C18": {
         "lean_modules": ["WP.Props.C18"],
         "lean_support": ["WP.Props.C09"],
